@@ -1,6 +1,6 @@
 (** Index arithmetic of the renderers as far as line ranges go (C02 (4) render_total):
-    internal/diags/position.go LineRange.Expand (the `lines` array of the JSON report: `make([]int, 0, Last-First+1)`
-    panics when the capacity is negative) and the plain branch of the console reporter (internal/reporter/console.go:
+    internal/diags/position.go LineRange.Expand (the `lines` array of the JSON report; since 5f804fb an inverted range
+    yields [First] instead of a makeslice panic) and the plain branch of the console reporter (internal/reporter/console.go:
     `for i := First; i <= Last; i++ { if i < 1 || i > len(lines) { continue }; ... lines[i-1] }`, guarded since f44c1ab).
     checkstyle and TeamCity print `Lines.First` only. *)
 From Coq Require Import List ZArith Lia String.
@@ -10,9 +10,9 @@ Local Open Scope Z_scope.
 
 Definition zrange (first : Z) (count : nat) : list Z := map (fun i => first + Z.of_nat i) (seq 0 count).
 
-(** LineRange.Expand *)
+(** LineRange.Expand (fix 5f804fb: an inverted range is rendered as its first line, never a negative capacity) *)
 Definition expand (first last : Z) : outcome (list Z) :=
-  if last - first + 1 <? 0 then Crash "makeslice: cap out of range"
+  if last <? first then Ok [first]
   else Ok (zrange first (Z.to_nat (last - first + 1))).
 
 (** console reporter, problem without diagnostics: the 1-based line numbers whose text is printed
